@@ -1,6 +1,6 @@
 //! C45 — dry runs and read-only queries leave the chain state unchanged.
 //!
-//! Leg (a), producer level, volume: chaingen sessions (in memory, and every third
+//! Leg (a), producer level, volume: chaingen sessions (in memory, and every second
 //! session on `HistoricalRocksDB` with full rewind so that past heights exist).
 //! The real `fuel_core_producer::Producer::dry_run` (view provider = the session's
 //! real `Database<OnChain>` through fuel-core's own `BlockProducerDatabase`
@@ -149,7 +149,7 @@ use vcommon::{
     tag,
 };
 
-pub const RULE: &str = "Leg a: chaingen sessions (every third on RocksDB with full state rewind); per block ~15-25 \
+pub const RULE: &str = "Leg a: chaingen sessions (every second on RocksDB with full state rewind); per block ~15-25 \
 requests to the real Producer::dry_run (single planned transactions and groups; latest, next and past heights; utxo \
 validation on/off/default; gas price given/default; storage-read recording on/off; time given/default) plus \
 Executor::dry_run_without_commit_with_source of the whole block, every request issued twice; byte-wise dump of all \
@@ -396,7 +396,7 @@ fn run_session(ctx: &Ctx, args: &Args, case: &Case, rng: &mut StdRng, blocks: u3
     let rt = tokio::runtime::Builder::new_current_thread().enable_all().build().expect("rt");
     let cfg = SessionConfig::random(rng);
     let mut sess = ChainSession::new(rng, cfg);
-    let history = case.session % 3 == 0;
+    let history = case.session % 2 == 0;
     let dir = args.scratch.join(format!("c45a-{}-{}-{}", case.seed, case.shard, case.session));
     let target = if history {
         let _ = std::fs::remove_dir_all(&dir);
@@ -697,6 +697,24 @@ fn spent_like(err: &str) -> bool {
     err.contains("was already spent") || (err.contains("UTXO") && err.contains("does not exist")) || err.contains("does not match any received message")
 }
 
+/// Spendable inputs (coins and messages) of a transaction, as bytes.
+fn input_ids(tx: &Transaction) -> Vec<Vec<u8>> {
+    use fuel_core_types::blockchain::transaction::TransactionExt;
+    tx.inputs()
+        .iter()
+        .filter_map(|i| {
+            i.utxo_id()
+                .map(|u| {
+                    let mut v = u.tx_id().to_vec();
+                    v.extend_from_slice(&u.output_index().to_be_bytes());
+                    v
+                })
+                .filter(|_| i.is_coin())
+                .or_else(|| i.nonce().map(|n| n.to_vec()))
+        })
+        .collect()
+}
+
 fn sign_all(tx: &mut Transaction, sess: &ChainSession) {
     for o in &sess.owners {
         match tx {
@@ -733,6 +751,11 @@ async fn node_leg(ctx: &Ctx, args: &Args, rounds: u32, idx: u64) {
     opt.twist_permille = 230;
     opt.txs = 4..=8;
     let mut included: Vec<fuel_core_types::fuel_tx::TxId> = Vec::new();
+    // inputs of every transaction the pool accepted so far: the pool remembers the inputs of
+    // executed transactions as spent (also a data message of a reverted transaction, which stays
+    // unspent on chain), so a later refusal of such an input says nothing about the dry runs
+    let mut seen_by_pool: std::collections::HashSet<Vec<u8>> = Default::default();
+    let t0 = std::time::Instant::now();
     let page = |n: i32| PaginationRequest::<String> {
         cursor: None,
         results: n,
@@ -768,6 +791,7 @@ async fn node_leg(ctx: &Ctx, args: &Args, rounds: u32, idx: u64) {
             nc.log.push(format!("dry_run({label}) -> {class}"));
             nc.check_same("dry_run", &format!("dry_run({label})"), &render(&a1), &render(&a2));
             report.count(&format!("c45.b.dry_run.{class}"));
+            report.count(&format!("c45.b.answers.{class}"));
             if let Err(e) = &a1 {
                 report.count(&format!("c45.b.dry_run.error.{}", err_class(&e.to_string())));
             }
@@ -787,6 +811,7 @@ async fn node_leg(ctx: &Ctx, args: &Args, rounds: u32, idx: u64) {
             let bclass = status_class(&b1);
             nc.log.push(format!("dry_run_opt({label}, utxo {utxo:?}, gas price {gp:?}) -> {bclass}"));
             nc.check_same("dry_run_opt", &format!("dry_run_opt({label}, utxo_validation {utxo:?}, gas_price {gp:?})"), &render(&b1), &render(&b2));
+            report.count(&format!("c45.b.answers.{bclass}"));
             report.count(&format!("c45.b.dry_run_opt.utxo_{}.{bclass}", match utxo { Some(true) => "on", Some(false) => "off", None => "default" }));
             report.distinct(&("b", "dry_run_opt", utxo, gp.is_some(), label.clone(), bclass));
 
@@ -799,6 +824,7 @@ async fn node_leg(ctx: &Ctx, args: &Args, rounds: u32, idx: u64) {
                 let cclass = status_class(&c1);
                 nc.log.push(format!("dry_run_opt({label}, at height {h} of {latest}) -> {cclass}"));
                 nc.check_same("dry_run_at_height", &format!("dry_run_opt({label}, at_height {h}, chain at {latest})"), &render(&c1), &render(&c2));
+                report.count(&format!("c45.b.answers.{cclass}"));
                 report.count(&format!("c45.b.dry_run_at_height.{kind}.{cclass}"));
                 report.distinct(&("b", "at_height", kind, label.clone(), cclass));
             }
@@ -842,6 +868,7 @@ async fn node_leg(ctx: &Ctx, args: &Args, rounds: u32, idx: u64) {
             let gclass = status_class(&g1);
             nc.log.push(format!("dry_run(group of {}) -> {gclass}", txs.len()));
             nc.check_same("dry_run", &format!("dry_run(group of {})", txs.len()), &render(&g1), &render(&g2));
+            report.count(&format!("c45.b.answers.{gclass}"));
             report.count(&format!("c45.b.dry_run_group.{gclass}"));
             nc.check_unchanged("a group dry run", "dry_run");
         }
@@ -901,19 +928,31 @@ async fn node_leg(ctx: &Ctx, args: &Args, rounds: u32, idx: u64) {
         // ---- the pool still accepts what was dry-run (inputs not marked spent)
         let mut accepted: Vec<(fuel_core_types::fuel_tx::TxId, String)> = Vec::new();
         for p in &valid_now {
+            let ids = input_ids(&p.tx);
+            let fresh = ids.iter().all(|i| !seen_by_pool.contains(i));
             match client.submit(&p.tx).await {
                 Ok(_) => {
                     report.count("c45.b.submit_after_dry_run.accepted");
+                    if fresh {
+                        report.count("c45.b.submit_after_dry_run.accepted_with_fresh_inputs");
+                    }
                     accepted.push((p.id, p.label()));
+                    seen_by_pool.extend(ids);
                 }
                 Err(e) => {
                     let text = e.to_string();
                     report.count(&format!("c45.b.submit_after_dry_run.rejected.{}", err_class(&text)));
-                    if spent_like(&text) {
+                    if spent_like(&text) && !fresh {
+                        report.count("c45.b.submit_after_dry_run.not_judged_input_known_to_pool");
+                    }
+                    if spent_like(&text) && fresh {
                         nc.log.push(format!("submit({}) -> {text}", p.label()));
                         ctx.violation(
                             "b: pool_rejects_dry_run_tx_as_spent",
-                            format!("{} was dry-run successfully (UTXO validation on) and is then refused by the pool: {text}", p.label()),
+                            format!(
+                                "{} was dry-run successfully (UTXO validation on), none of its inputs was ever part of a transaction given to the pool, and it is refused by the pool: {text}",
+                                p.label()
+                            ),
                             nc.replay(),
                         );
                     }
@@ -923,18 +962,21 @@ async fn node_leg(ctx: &Ctx, args: &Args, rounds: u32, idx: u64) {
         if let Ok(assembled) = as1 {
             let mut tx = assembled.transaction;
             sign_all(&mut tx, &sess);
+            let ids = input_ids(&tx);
+            let fresh = ids.iter().all(|i| !seen_by_pool.contains(i));
             match client.submit(&tx).await {
                 Ok(_) => {
                     report.count("c45.b.submit_assembled.accepted");
                     accepted.push((tx.id(&sess.chain_id), "assembled transfer".into()));
+                    seen_by_pool.extend(ids);
                 }
                 Err(e) => {
                     let text = e.to_string();
                     report.count(&format!("c45.b.submit_assembled.rejected.{}", err_class(&text)));
-                    if spent_like(&text) {
+                    if spent_like(&text) && fresh {
                         ctx.violation(
                             "b: pool_rejects_assembled_tx_as_spent",
-                            format!("the transaction returned by assemble_tx is refused by the pool: {text}"),
+                            format!("the transaction returned by assemble_tx (inputs never given to the pool before) is refused by the pool: {text}"),
                             nc.replay(),
                         );
                     }
@@ -968,6 +1010,7 @@ async fn node_leg(ctx: &Ctx, args: &Args, rounds: u32, idx: u64) {
             }
         }
     }
+    report.info(&format!("c45.b.node{idx}.wall_s"), json!(t0.elapsed().as_secs_f64()));
     let _ = node.srv.send_stop_signal_and_await_shutdown().await;
 }
 
@@ -1000,8 +1043,8 @@ pub fn run(args: &Args, report: &Report) -> (&'static str, bool, Vec<&'static st
         if let Some(s) = replaying.as_ref().and_then(|r| r.get("seed")).and_then(|s| s.as_u64()) {
             args2.seed = s;
         }
-        let nodes = args.by_tier(1u64, 3);
-        let rounds = args.by_tier(9u32, 14);
+        let nodes = args.by_tier(2u64, 4);
+        let rounds = args.by_tier(12u32, 16);
         Some(
             std::thread::Builder::new()
                 .stack_size(64 << 20)
@@ -1027,30 +1070,43 @@ pub fn run(args: &Args, report: &Report) -> (&'static str, bool, Vec<&'static st
     }
 
     if replaying.is_none() && ctx.selftest == 0 {
-        let q = |quick: u64, thorough: u64| args.by_tier(quick, thorough);
-        report.require("c45.a.blocks", q(350, 3500));
-        report.require("c45.a.answer.success", q(2000, 20000));
-        report.require("c45.a.answer.reverted", q(500, 5000));
-        report.require("c45.a.answer.error", q(1500, 15000));
-        report.require("c45.a.height.past.success", q(200, 2000));
-        report.require("c45.a.height.past.reverted", q(40, 400));
-        report.require("c45.a.height.next.success", q(200, 2000));
-        report.require("c45.a.utxo_validation.off", q(1500, 15000));
-        report.require("c45.a.utxo_validation.on", q(1500, 15000));
-        report.require("c45.a.record_storage_reads.nonempty", q(800, 8000));
-        report.require("c45.a.request.group", q(800, 8000));
-        report.require("c45.a.twist.UnknownContract.error", q(30, 300));
-        report.require("c45.a.executor_dry_run_with_source", q(350, 3500));
-        report.require("c45.a.blocks_produced_before_and_after_dry_runs", q(350, 3500));
-        report.require("c45.a.txs_executed_after_dry_run", q(1200, 12000));
-        report.require("c45.b.blocks", q(7, 25));
-        report.require("c45.b.dry_run.success", q(15, 60));
-        report.require("c45.b.dry_run.reverted", q(3, 12));
-        report.require("c45.b.dry_run.error", q(5, 20));
-        report.require("c45.b.dry_run_at_height.past.success", q(5, 20));
-        report.require("c45.b.submit_after_dry_run.accepted", q(15, 60));
-        report.require("c45.b.assemble_tx.ok", q(4, 15));
-        report.require("c45.b.query.balance.ok", q(7, 25));
+        // observed at quick seed 1: about 2x the figures below
+        let k = args.by_tier(1u64, 6);
+        for (key, min) in [
+            ("c45.a.blocks", 380u64),
+            ("c45.a.answer.success", 1200),
+            ("c45.a.answer.reverted", 1100),
+            ("c45.a.answer.error", 1900),
+            ("c45.a.height.past.success", 150),
+            ("c45.a.height.past.reverted", 60),
+            ("c45.a.height.past.error", 200),
+            ("c45.a.height.next.success", 200),
+            ("c45.a.utxo_validation.off", 1000),
+            ("c45.a.utxo_validation.on", 1000),
+            ("c45.a.record_storage_reads.nonempty", 700),
+            ("c45.a.request.group", 1100),
+            ("c45.a.twist.UnknownContract.error", 60),
+            ("c45.a.tx_with_message_input.success", 200),
+            ("c45.a.executor_dry_run_with_source", 380),
+            ("c45.a.blocks_produced_before_and_after_dry_runs", 380),
+            ("c45.a.txs_executed_after_dry_run", 1200),
+        ] {
+            report.require(key, min * k);
+        }
+        let n = args.by_tier(2u64, 4);
+        for (key, min) in [
+            ("c45.b.blocks", 7u64),
+            ("c45.b.answers.success", 40),
+            ("c45.b.answers.reverted", 25),
+            ("c45.b.answers.error", 12),
+            ("c45.b.dry_run_at_height.past.success", 4),
+            ("c45.b.record_storage_reads.nonempty", 6),
+            ("c45.b.submit_after_dry_run.accepted_with_fresh_inputs", 15),
+            ("c45.b.assemble_tx.ok", 4),
+            ("c45.b.query.balance.ok", 7),
+        ] {
+            report.require(key, min * n);
+        }
     }
     (RULE, false, assumptions())
 }
